@@ -33,6 +33,14 @@ def plan(tier, seed):
     unis["I3 input-conditioned" + (" shard 1/2" if tier == "quick" else "")] = len(i3)
     for ch in U.chunks(i3, 60):
         units.append(("inputs", [("i3", i) for i in ch]))
+    # multiplexed inputs: one source s selects between two 3-variable networks (f_i = s ? N1.f_i : N0.f_i), so a
+    # motif-avoidant attractor can exist under one valuation of the input and not under the other
+    n0s = [16555679, 0, 8974576]  # an MAA network, the all-false network, A=C B=C C=A&B
+    n1s = U.shard(U.catalogue("maa"), seed, 1024 if tier == "quick" else 64) + U.shard(U.catalogue("multi"), seed, 16 if tier == "quick" else 1)
+    mux = [("mux", a, b) for a in n0s for b in n1s]
+    unis["MUX(s; N0, N1) input-conditioned 4-variable networks"] = len(mux)
+    for ch in U.chunks(mux, 12):
+        units.append(("inputs", ch))
     ksrc = [("k", k) for k, n in U.kernel().items() if n.sources]
     unis["K with source variables"] = len(ksrc)
     units.append(("inputs", ksrc))
@@ -76,6 +84,10 @@ def lib_results(net, strat):
         sd.build()
     elif strat == "scc":
         sd.expand_scc()
+    elif strat == "aseeds":
+        sd.expand_attractor_seeds()
+    elif strat == "block_plain":
+        sd.expand_block(optimize_source_nodes=False)
     else:
         sd.expand_bfs()
     seeds = [s for v in sd.expanded_attractor_seeds().values() for s in v]
@@ -94,7 +106,7 @@ def check_union(spec):
     a2 = sorted(n2.attractor_of(n2.state_of(s)) for s in s2)
     if a1 != sorted(n1.attractors) or a2 != sorted(n2.attractors):
         out.append(("part-attractors-wrong", "a part's own attractors differ from the reference"))
-    for strat in ("build", "scc", "bfs"):
+    for strat in ("build", "scc", "bfs", "aseeds", "block_plain"):
         su, mu = lib_results(un, strat)
         if mu != exp_mins:
             out.append(("union-minimal-traps-not-product", f"{strat}: got {mu} expected {exp_mins}"))
@@ -128,9 +140,29 @@ def below(sd, node):
     return {k: v for k, v in st.items() if k in ks}
 
 
+def mux_net(a, b):
+    from ..refmodel import net_from_index
+    n0, n1 = net_from_index(3, a), net_from_index(3, b)
+    names = ["A", "B", "C", "S"]
+    tabs = []
+    for i in range(3):
+        t = 0
+        for s4 in range(16):
+            src = n1 if (s4 >> 3) & 1 else n0
+            if src.f(i, s4 & 7):
+                t |= 1 << s4
+        tabs.append(t)
+    ident = 0
+    for s4 in range(16):
+        if (s4 >> 3) & 1:
+            ident |= 1 << s4
+    tabs.append(ident)
+    return Net(names, tabs)
+
+
 def check_inputs(spec):
     out = []
-    net = U.resolve(spec)
+    net = mux_net(spec[1], spec[2]) if spec[0] == "mux" else U.resolve(spec)
     src = net.sources
     if not src:
         return out, 0
@@ -155,7 +187,7 @@ def check_inputs(spec):
         # attractors: free-input network restricted to the valuation vs constant network, by three strategies
         vm = net.mask_of(val)
         exp = sorted(a for a in net.attractors if (a & ~vm) == 0)
-        for strat in ("build", "scc", "bfs"):
+        for strat in ("build", "scc", "bfs", "aseeds"):
             sf, _ = lib_results(net, strat)
             got_f = sorted(net.attractor_of(net.state_of(s)) for s in sf if all(s[k] == v for k, v in val.items()))
             sc, _ = lib_results(cn, strat)
